@@ -10,7 +10,8 @@
   keychain, Identity and Key views, has_default_*, default_*(), the documented .is_default attributes)
   plus the file names in the private-key directory.
 
-Model objects are *slots*: identity 'A', key ('A', n), certificate (('A', n), 1|2) as in spec/Keychain.tla.
+Model objects are *slots*: identity 'A', key ('A', n), certificate (('A', n), 1|2|3) as in spec/Keychain.tla
+(1 self-signed, 2 imported and named after its key, 3 imported and CROSS-FILED: named after another key).
 """
 import hashlib, json, os, shutil, sqlite3, tempfile
 
@@ -260,6 +261,7 @@ class Store:
         self._signer_memo = {}
         self._regen = None
         self.held = []       # signer objects handed out earlier, with what they were when obtained
+        self.n_cross = 0     # cross-filed certificates made so far (names them, and walks through the peers)
         self.kc = None
         self.open()
         # issuer of imported certificates: a harness-owned key outside the keychain
@@ -301,8 +303,8 @@ class Store:
             self._regen = (slot, info)
             return
         self.key[slot] = info
-        self.cert.pop((slot, 1), None)
-        self.cert.pop((slot, 2), None)
+        for n in (1, 2, 3):
+            self.cert.pop((slot, n), None)
 
     def _key_listed(self, k):
         try:
@@ -355,13 +357,34 @@ class Store:
                 self.cert[(k, 1)] = {'name': list(n), 'data': bytes(kv[n].data)}
                 return
 
-    def _make_import(self, k):
+    def _make_import(self, k, slot=2, how='none'):
+        """A certificate to be imported under key k.  Slot 2: issued for k (its name extends k's name).
+        Slot 3: cross-filed - issued for ANOTHER key: how = 'xkey' one the harness has generated in this store
+        (listed, deleted meanwhile, or left by a failed new_key; the peers are walked through in turn),
+        'xnone' (or no peer yet) one that never existed, under the name of another identity."""
         from datetime import datetime, timedelta, UTC
         from ndn.app_support.security_v2 import derive_cert
+        N = self.Name
         info = self.key[k]
-        name, data = derive_cert(info['name'], 'imp', info['pub'], self._issuer,
-                                 datetime.now(UTC), 3600)
-        self.cert[(k, 2)] = {'name': list(name), 'data': bytes(data)}
+        if slot == 2:
+            subject, pub, issuer_id = info['name'], info['pub'], 'imp'
+        else:
+            own = N.to_bytes(info['name'])
+            peers = [p for p in sorted(self.key) if p != k and N.to_bytes(self.key[p]['name']) != own]
+            self.n_cross += 1
+            peer = None
+            if how == 'xkey' and peers:
+                peer = peers[self.n_cross % len(peers)]
+                subject, pub = self.key[peer]['name'], self.key[peer]['pub']
+            else:
+                other = self.ids[(self.ids.index(k[0]) + self.n_cross) % len(self.ids)]
+                subject = N.normalize(self.id_name(other)) + N.from_str('/KEY/never-%d' % self.n_cross)
+                pub = info['pub']
+            issuer_id = 'xf%d' % self.n_cross      # certificate names are unique in the store
+        name, data = derive_cert(subject, issuer_id, pub, self._issuer, datetime.now(UTC), 3600)
+        self.cert[(k, slot)] = {'name': list(name), 'data': bytes(data)}
+        if slot != 2:
+            self.cert[(k, slot)]['peer'] = peer
         return name, bytes(data)
 
     # -- operations
@@ -412,10 +435,11 @@ class Store:
                         or bytes(ret.key_bits) != (self._regen[1] if self._regen else self.key[o['k']])['pub']:
                     res['issues'].append(('NewKey/returned-object', 'new_key returned a key other than the one it generated'))
             elif op == 'ImportCert':
-                if (o['k'], 2) in self.cert and self._listed(o['k'], (o['k'], 2)):
-                    name, data = self.cert[(o['k'], 2)]['name'], self.cert[(o['k'], 2)]['data']
+                cs = (tuple(o['k']), o['c'][1] if o['c'][1] else 2)      # no slot named: the own-named one
+                if cs in self.cert and self._listed(o['k'], cs):
+                    name, data = self.cert[cs]['name'], self.cert[cs]['data']
                 else:
-                    name, data = self._make_import(o['k'])
+                    name, data = self._make_import(tuple(o['k']), cs[1], o['t'])
                 kc.import_cert(self.key_name(o['k']), name, data)
             elif op == 'SetDefId':
                 kc.set_default_identity(self.id_name(o['i']))
@@ -468,8 +492,8 @@ class Store:
         if self._regen is not None and res['out'] == 'ok':
             slot, info = self._regen
             self.key[slot] = info
-            self.cert.pop((slot, 1), None)
-            self.cert.pop((slot, 2), None)
+            for n in (1, 2, 3):
+                self.cert.pop((slot, n), None)
         if op in ('NewKey', 'TouchIdentity') and self.kc is not None:
             self._learn_selfsigned(o['k'])
             if tuple(o['k']) in self.key and self.check_keypair(tuple(o['k'])) is False:
